@@ -1,6 +1,54 @@
 /-
-  Property C06 — property theorems only (helper lemmas live next to the model).
-  Stub: nothing claimed yet.
+  Property C06 — monotonic resources: blocks disjoint, aligned, stable; release frees all once.
+  Property theorems only; the invariant and helper lemmas live in Babylon/Arena/Lemmas.lean.
 -/
+import Babylon.Arena.Lemmas
+
 namespace Babylon.Properties.C06
+open Babylon.Arena Babylon.Gen.Arena Babylon.Core
+
+/-- Generated obligation: capacities and layouts of the bookkeeping structs are the ones the model
+and its proofs use; the three arrays really have `*_CAPACITY` entries and the oversize array (which
+the source indexes with `DESTROY_TASK_ARRAY_CAPACITY` in one place and `PAGE_ARRAY_CAPACITY` in the
+others) is consistent because both capacities are equal. -/
+theorem gen_constants :
+    pageArrayCap = 15 ∧ destroyArrayCap = 15 ∧ pageArrayCap = destroyArrayCap ∧
+    pageEntriesInArray = pageArrayCap ∧ ovEntriesInArray = pageArrayCap ∧ taskEntriesInArray = destroyArrayCap ∧
+    sizeofPageArray = 128 ∧ alignofPageArray = 8 ∧ offsetPages = 8 ∧ ptrSize = 8 ∧
+    sizeofOvArray = 368 ∧ alignofOvArray = 8 ∧ offsetOvPages = 8 ∧ sizeofOvPage = 24 ∧
+    sizeofDtArray = 248 ∧ alignofDtArray = 8 ∧ offsetTasks = 8 ∧ sizeofDestroyTask = 16 := by decide
+
+/-- Generated obligation: the move assignment exchanges `_upstream` (repaired defect: before
+/repo a822f16 it did not, and `release()` of the moved-to resource returned oversize blocks to an
+upstream that never allocated them). -/
+theorem gen_move_swaps_upstream : moveSwapsUpstream = true ∧ "_upstream" ∈ moveSwaps := by decide
+
+/-- Generated obligation: the move assignment exchanges every state field of the model (and nothing
+the model does not know), and the move constructor delegates to it. -/
+theorem gen_move_swaps :
+    moveSwaps.filter (· ≠ "_upstream") = Skel.stateFields ∧ moveCtorDelegates = true := by decide
+
+/-- Generated obligation: default member initialisers = `Arena.fresh`. -/
+theorem gen_field_inits : fieldInits = Skel.fieldInits := by decide
+
+/-- Generated obligations: the statements of every modelled function are the ones the model was
+transcribed from. -/
+theorem gen_stmts_allocate :
+    stmts_allocate = Skel.stmts_allocate ∧ stmts_allocate_tpl = Skel.stmts_allocate_tpl ∧
+    stmts_do_align = Skel.stmts_do_align ∧
+    stmts_do_allocate_already_aligned = Skel.stmts_do_allocate_already_aligned := by decide
+theorem gen_stmts_do_allocate_in_new_page :
+    stmts_do_allocate_in_new_page = Skel.stmts_do_allocate_in_new_page := by decide
+theorem gen_stmts_do_allocate_with_page_in_new_page_array :
+    stmts_do_allocate_with_page_in_new_page_array = Skel.stmts_do_allocate_with_page_in_new_page_array := by decide
+theorem gen_stmts_do_allocate_in_oversize_page :
+    stmts_do_allocate_in_oversize_page = Skel.stmts_do_allocate_in_oversize_page := by decide
+theorem gen_stmts_register_destructor :
+    stmts_register_destructor = Skel.stmts_register_destructor ∧
+    stmts_get_destroy_task = Skel.stmts_get_destroy_task ∧
+    stmts_do_get_destroy_task_in_new_array = Skel.stmts_do_get_destroy_task_in_new_array := by decide
+theorem gen_stmts_release :
+    stmts_release = Skel.stmts_release ∧ stmts_destruct_all = Skel.stmts_destruct_all := by decide
+theorem gen_stmts_contains : stmts_contains = Skel.stmts_contains := by decide
+
 end Babylon.Properties.C06
